@@ -123,6 +123,15 @@ def run_case(case, tier="quick", settings_opts=None, force_text=None):
                           solver=sorted(solver_kinds))
             return dict(base, status="violation", bucket=f"wrong_value:{'+'.join(sorted(solver_kinds))}:n={bad['first_n']}",
                         detail=detail, nontrivial=True, polar_program=str(an.program))
+        # beyond the listed special cases: the general formula must continue the sequence.  The exact
+        # interpreter is used when the state space allows it; otherwise the values come from iterating
+        # Polar's own recurrence matrix (whose one-step identities are C03's business).
+        if maxcase + 1 > N:
+            far = _check_far(an, k, mono, expr, case, maxcase, tlimit)
+            if far is not None:
+                return dict(base, status="violation", bucket=f"wrong_value_far:{'+'.join(sorted(solver_kinds))}",
+                            detail=dict(far, goal=k, closed_form=str(expr), program=text), nontrivial=True)
+            base["tags"] = base["tags"] + ["far_n_checked"]
         env, un, it, dists = runs[0]
         vals = {refsem.expectation(dists[n], mono, it) for n in range(N + 1)}
         nonconst = nonconst or len(vals) > 1
@@ -138,6 +147,46 @@ def run_case(case, tier="quick", settings_opts=None, force_text=None):
     prob = any(t in tags for t in ("choice", "draw", "if", "guard"))
     return dict(base, status="ok", nontrivial=bool(prob or nonconst), counters={"pole_points_skipped": skipped, "goals_compared": len(good),
                                                                              "goal_refusals": len(results) - len(good)})
+
+
+def _check_far(an, k, mono, expr, case, maxcase, tlimit):
+    from symengine.lib.symengine_wrapper import sympify
+    import sympy
+
+    far_n = maxcase + 2
+    if far_n > 40:
+        return None
+    try:
+        with pd.time_limit(tlimit):
+            runs = common.oracle_runs(case["prog"], case["points"][:1], far_n, max_states=3000)
+        env, un, it, dists = runs[0]
+        subs = common.polar_subs(env, un)
+        for n in range(maxcase + 1, far_n + 1):
+            truth = refsem.expectation(dists[n], mono, it)
+            pv = pd.eval_closed_form(expr, n, subs)
+            if not pd.values_equal(pv, truth):
+                return {"first_n": n, "polar": common.fmt(pv), "truth": common.fmt(truth), "oracle": "exact interpreter"}
+        return None
+    except (refsem.OracleGiveUp, pd.CaseTimeout, ValueError):
+        pass
+    s = an.solvers.get(sympify(k))
+    if s is None:
+        return None
+    rec = s.solver.recurrences
+    try:
+        with pd.time_limit(tlimit):
+            idx = rec.monomials.index(sympy.sympify(k))
+            v = rec.init_values_vector
+            for n in range(far_n + 1):
+                if n > maxcase:
+                    d = sympy.simplify(v[idx] - expr.xreplace({sympy.Symbol("n", integer=True): n}))
+                    if d != 0:
+                        return {"first_n": n, "polar": str(expr.xreplace({sympy.Symbol("n", integer=True): n})),
+                                "truth": str(v[idx]), "oracle": "iteration of Polar's recurrence matrix"}
+                v = rec.recurrence_matrix * v
+    except (pd.CaseTimeout, ValueError):
+        return None
+    return None
 
 
 _N_LOCALS = None
